@@ -968,6 +968,16 @@ def walk_function(repo: Repo, fi: FunctionInfo, self_class: str = None, inline=N
     return Walker(repo, fi, self_class=self_class, inline=inline)
 
 
+def is_neg_float_max(t: Term) -> bool:
+    """-FLOAT_MAX in any of the spellings the repository uses."""
+    fm = ("K", "FLOAT_MAX")
+    if t == ("neg", fm):
+        return True
+    if t[0] == "bin" and t[1] == "*" and {t[2], t[3]} == {fm, ("const", -1)}:
+        return True
+    return False
+
+
 def guard_terms(ev: Event) -> List[Term]:
     """Guards as positive terms (negated when polarity is False)."""
     return [g if pol else mk_not(g) for g, pol in ev.guards]
